@@ -238,6 +238,21 @@ func runProgram(c *proto.Case, seed uint64) proto.Run {
 		run.FIDsLeft = fidsLeft(fork.Process)
 	}
 
+	for _, name := range c.ReadVars {
+		v, err := fork.Variables.GetString(name)
+		if err != nil {
+			if run.VarErrs == nil {
+				run.VarErrs = map[string]string{}
+			}
+			run.VarErrs[name] = err.Error()
+			continue
+		}
+		if run.Vars == nil {
+			run.Vars = map[string]string{}
+		}
+		run.Vars[name] = v
+	}
+
 	if c.Events {
 		verifhook.EnableEvents(false)
 		for _, e := range verifhook.DrainEvents() {
